@@ -3,6 +3,7 @@ package main
 import (
 	"go/token"
 	"go/types"
+	"strings"
 
 	"golang.org/x/tools/go/ssa"
 )
@@ -59,15 +60,49 @@ func constIndexSites(fn *ssa.Function) []indexSite {
 }
 
 // knownMinLen returns a statically known lower bound of len(x), or -1.
+var minLenBusy = map[ssa.Value]bool{}
+
 func knownMinLen(x ssa.Value) int64 {
 	x = stripValue(x)
+
+	if minLenBusy[x] || len(minLenBusy) > 40 {
+		return -1
+	}
+
+	minLenBusy[x] = true
+	defer delete(minLenBusy, x)
+
+	return knownMinLen1(x)
+}
+
+func knownMinLen1(x ssa.Value) int64 {
 
 	switch v := x.(type) {
 	case *ssa.Slice:
 		// s[lo:hi] of an array with constant bounds, or a whole array
 		if p, ok := v.X.Type().Underlying().(*types.Pointer); ok {
-			if arr, ok := p.Elem().Underlying().(*types.Array); ok && v.Low == nil && v.High == nil {
-				return arr.Len()
+			if arr, ok := p.Elem().Underlying().(*types.Array); ok {
+				lo, hi := int64(0), arr.Len()
+
+				if v.Low != nil {
+					n, isC := constInt(v.Low)
+					if !isC {
+						return -1
+					}
+
+					lo = n
+				}
+
+				if v.High != nil {
+					n, isC := constInt(v.High)
+					if !isC {
+						return -1
+					}
+
+					hi = n
+				}
+
+				return hi - lo
 			}
 		}
 	case *ssa.Const:
@@ -82,9 +117,30 @@ func knownMinLen(x ssa.Value) int64 {
 				return 1
 			}
 		}
+
+		// a repository function all of whose returns have a known minimum length (one level deep)
+		if cf := calleeFunction(v.Common()); cf != nil && len(cf.Blocks) > 0 && cf.Signature.Results().Len() == 1 {
+			min := int64(-1)
+
+			for i, ret := range returnsOf(cf) {
+				m := knownMinLenShallow(resolveLocal(retResult(ret, 0)))
+				if i == 0 || m < min {
+					min = m
+				}
+			}
+
+			return min
+		}
 	case *ssa.MakeSlice:
 		if n, ok := constInt(v.Len); ok {
 			return n
+		}
+	case *ssa.Convert:
+		// []byte("const"), string(x)
+		if _, toStr := v.Type().Underlying().(*types.Basic); !toStr || isStringType(v.X.Type()) {
+			if _, fromInt := v.X.Type().Underlying().(*types.Basic); !fromInt || isStringType(v.X.Type()) {
+				return knownMinLen(v.X)
+			}
 		}
 	case *ssa.Phi:
 		min := int64(-1)
@@ -107,6 +163,13 @@ func knownMinLen(x ssa.Value) int64 {
 				return 1
 			}
 
+			// a field just assigned in the same block (x.f = make([]T, n); x.f[0] = …)
+			if fa, ok := v.X.(*ssa.FieldAddr); ok {
+				if sv := lastStoreBefore(v, fa); sv != nil {
+					return knownMinLenNoPhi(sv)
+				}
+			}
+
 			if vals, ok := storedValues(v.X); ok && len(vals) > 0 {
 				min := int64(-1)
 
@@ -125,6 +188,60 @@ func knownMinLen(x ssa.Value) int64 {
 	return -1
 }
 
+// knownMinLenShallow: as knownMinLen but without following repository calls
+// (bounds the interprocedural step to one level).
+func knownMinLenShallow(x ssa.Value) int64 {
+	if c, ok := stripValue(x).(*ssa.Call); ok {
+		switch callID(c.Common()) {
+		case "strings.Split", "strings.SplitN", "strings.SplitAfter":
+			if sep, ok := constString(c.Call.Args[1]); ok && sep != "" {
+				return 1
+			}
+		}
+
+		return -1
+	}
+
+	return knownMinLen(x)
+}
+
+func isStringType(t types.Type) bool {
+	b, ok := t.Underlying().(*types.Basic)
+
+	return ok && b.Info()&types.IsString != 0
+}
+
+// lastStoreBefore: the value most recently stored, earlier in the load's own
+// block, through a FieldAddr of the same base and field, with no call or
+// other store to that field in between.
+func lastStoreBefore(load *ssa.UnOp, fa *ssa.FieldAddr) ssa.Value {
+	b := load.Block()
+	idx := -1
+
+	for i, in := range b.Instrs {
+		if in == ssa.Instruction(load) {
+			idx = i
+
+			break
+		}
+	}
+
+	for i := idx - 1; i >= 0; i-- {
+		switch x := b.Instrs[i].(type) {
+		case *ssa.Store:
+			if a, ok := x.Addr.(*ssa.FieldAddr); ok && a.Field == fa.Field && (a.X == fa.X || sameSliceValue(a.X, fa.X)) {
+				return x.Val
+			}
+		case *ssa.Call, *ssa.Defer, *ssa.Go:
+			if _, isB := x.(ssa.CallInstruction).Common().Value.(*ssa.Builtin); !isB {
+				return nil
+			}
+		}
+	}
+
+	return nil
+}
+
 func knownMinLenNoPhi(x ssa.Value) int64 {
 	if _, isPhi := stripValue(x).(*ssa.Phi); isPhi {
 		return -1
@@ -141,6 +258,14 @@ func sameSliceValue(a, b ssa.Value) bool {
 		return true
 	}
 
+	// m[k] twice with the same map and the same constant key; v, ok := m[k]
+	if la, lb := lookupOf(a), lookupOf(b); la != nil && lb != nil {
+		ka, oka := constString(la.Index)
+		kb, okb := constString(lb.Index)
+
+		return oka && okb && ka == kb && sameSliceValue(la.X, lb.X)
+	}
+
 	ua, oka := a.(*ssa.UnOp)
 	ub, okb := b.(*ssa.UnOp)
 
@@ -153,6 +278,57 @@ func sameSliceValue(a, b ssa.Value) bool {
 	}
 
 	return false
+}
+
+func lookupOf(v ssa.Value) *ssa.Lookup {
+	switch x := v.(type) {
+	case *ssa.Lookup:
+		if _, isMap := x.X.Type().Underlying().(*types.Map); isMap {
+			return x
+		}
+	case *ssa.Extract:
+		if l, ok := x.Tuple.(*ssa.Lookup); ok && x.Index == 0 {
+			return l
+		}
+	}
+
+	return nil
+}
+
+// noLongerThan: v is x, or is computed from x by operations that never
+// produce more bytes than their operand has (sub-slices, the strings.Trim*
+// family), or — for comparisons with ASCII constants only — strings.ToLower /
+// ToUpper.
+func noLongerThan(v, x ssa.Value, depth int) bool {
+	if sameSliceValue(v, x) {
+		return true
+	}
+
+	if depth > 4 {
+		return false
+	}
+
+	switch y := stripValue(v).(type) {
+	case *ssa.Slice:
+		return noLongerThan(y.X, x, depth+1)
+	case *ssa.Call:
+		switch callID(y.Common()) {
+		case "strings.TrimSpace", "strings.TrimPrefix", "strings.TrimSuffix", "strings.Trim", "strings.TrimLeft", "strings.TrimRight", "strings.ToLower", "strings.ToUpper":
+			return noLongerThan(y.Call.Args[0], x, depth+1)
+		}
+	}
+
+	return false
+}
+
+func isASCII(s string) bool {
+	for i := 0; i < len(s); i++ {
+		if s[i] >= 0x80 {
+			return false
+		}
+	}
+
+	return true
 }
 
 // lenOf: v is len(x) → x.
@@ -172,7 +348,69 @@ func lenOf(v ssa.Value) ssa.Value {
 // indexGuardCuts returns the edges establishing len(x) > k.
 func indexGuardCuts(fn *ssa.Function, x ssa.Value, k int64) map[Edge]bool {
 	return cutEdges(fn, func(f Fact) bool {
-		if f.Kind != "cmp" {
+		switch f.Kind {
+		case "ne":
+			// s != "" (also of a trimmed / case-folded copy) implies len(s) >= 1
+			if c, ok := constString(f.C); ok && c == "" && k == 0 && isStringType(f.V.Type()) {
+				return noLongerThan(f.V, x, 0)
+			}
+
+			return false
+		case "eq":
+			// s == "const"
+			if c, ok := constString(f.C); ok && int64(len(c)) > k && isStringType(f.V.Type()) {
+				return sameSliceValue(f.V, x)
+			}
+
+			return false
+		case "nonnil":
+			// a url.Values-style map: a present key has at least one value
+			return k == 0 && isParametersLookup(f.V) && sameSliceValue(f.V, x)
+		case "true":
+			if ex, ok := f.V.(*ssa.Extract); ok && ex.Index == 1 {
+				if l, ok := ex.Tuple.(*ssa.Lookup); ok && l.CommaOk {
+					return k == 0 && isParametersLookup(l) && lookupOf(stripValue(x)) != nil && sameSliceValue(l, x)
+				}
+			}
+
+			c, ok := f.V.(*ssa.Call)
+			if !ok {
+				return false
+			}
+
+			switch callID(c.Common()) {
+			case "strings.HasPrefix", "strings.HasSuffix":
+				p, isC := constString(c.Call.Args[1])
+
+				return isC && int64(len(p)) > k && isASCII(p) && noLongerThan(c.Call.Args[0], x, 0)
+			case "strings.Contains":
+				// parts := strings.Split(s, sep) behind strings.Contains(s, sep): at least two parts
+				sp, ok := stripValue(x).(*ssa.Call)
+				if !ok || k > 1 {
+					return false
+				}
+
+				switch callID(sp.Common()) {
+				case "strings.Split", "strings.SplitN":
+				default:
+					return false
+				}
+
+				if id := callID(sp.Common()); id == "strings.SplitN" {
+					if n, isC := constInt(sp.Call.Args[2]); !isC || (n >= 0 && n < 2) {
+						return false
+					}
+				}
+
+				sep1, ok1 := constString(c.Call.Args[1])
+				sep2, ok2 := constString(sp.Call.Args[1])
+
+				return ok1 && ok2 && sep1 == sep2 && sep1 != "" && sameSliceValue(c.Call.Args[0], sp.Call.Args[0])
+			}
+
+			return false
+		case "cmp":
+		default:
 			return false
 		}
 
@@ -211,10 +449,43 @@ func indexGuardCuts(fn *ssa.Function, x ssa.Value, k int64) map[Edge]bool {
 			return n >= k+1
 		case token.EQL:
 			return n >= k+1
+		case token.NEQ:
+			return n == 0 && k == 0
 		}
 
 		return false
 	})
+}
+
+// isParametersLookup: v is router.Session.Parameters[key] (a copy of
+// url.Values, in which every present key has at least one value; the rule
+// R-C40-1|router.Session.Parameters source checks that it is only ever
+// filled from URL.Query()).
+func isParametersLookup(v ssa.Value) bool {
+	l := lookupOf(stripValue(v))
+	if l == nil {
+		if lk, ok := v.(*ssa.Lookup); ok {
+			l = lk
+		}
+	}
+
+	if l == nil {
+		return false
+	}
+
+	u, ok := l.X.(*ssa.UnOp)
+	if !ok {
+		return false
+	}
+
+	fa, ok := u.X.(*ssa.FieldAddr)
+	if !ok || fieldName(fa.X.Type(), fa.Field) != "Parameters" {
+		return false
+	}
+
+	n := namedOf(fa.X.Type())
+
+	return n != nil && n.Obj().Name() == "Session" && n.Obj().Pkg() != nil && strings.HasSuffix(n.Obj().Pkg().Path(), "/internal/router")
 }
 
 // indexSiteGuarded reports whether the constant index is safe.
